@@ -223,6 +223,23 @@ def view(ev):
     return [ev.get("num"), ev_id(ev)]
 
 
+class RaisingQualifier(incident.IncidentQualifier):
+    def check_event(self, ev):
+        if ev['level'] >= log.WEIRD:
+            raise RuntimeError("qualifier fault")
+        return False
+
+
+from zope.interface import implementer as _implementer
+from foolscap.logging.interfaces import IIncidentReporter as _IIR
+
+
+@_implementer(_IIR)
+class RaisingReporter(incident.IncidentReporter):
+    def incident_declared(self, triggering_event):
+        raise RuntimeError("reporter fault")
+
+
 class LoggerRig(object):
     """a FoolscapLogger with logdir/reporter configured as the model's cfg says; records what happened"""
 
@@ -242,6 +259,9 @@ class LoggerRig(object):
         else:
             os.makedirs(self.incdir)
         self.published = []
+        self.contents = {}
+        self.fault = None
+        self.factory = factory
         self.recorded_cb = []
         self.L.addImmediateIncidentObserver(lambda name, trigger: self.recorded_cb.append(name))
         self.lfo = None
@@ -256,10 +276,42 @@ class LoggerRig(object):
 
     def turn(self):
         E.turn()
+        if not os.path.isdir(self.incdir):
+            return
         now = sorted(f for f in os.listdir(self.incdir) if f.endswith(".flog.bz2"))
         for f in now:
             if f not in self.published:
                 self.published.append(f)
+                try:       # read at publication: a later fault may remove the directory
+                    self.contents[f] = list(flogfile.get_events(os.path.join(self.incdir, f)))
+                except Exception as e:
+                    self.contents[f] = e
+
+    def set_fault(self, kind, variant):
+        """make the synchronous incident handling fail (kind 1: qualifier, 2: reporter) or heal it (kind 0)"""
+        L = self.L
+        # heal whatever is broken
+        if self.fault == ("q",):
+            L.setIncidentQualifier(incident.IncidentQualifier())
+        elif self.fault == ("factory",):
+            L.setIncidentReporterFactory(self.factory)
+        elif self.fault in (("rmdir",), ("notadir",)):
+            if os.path.isfile(self.incdir):
+                os.unlink(self.incdir)
+            os.makedirs(self.incdir, exist_ok=True)
+        self.fault = None
+        if kind == 1:
+            L.setIncidentQualifier(RaisingQualifier())
+            self.fault = ("q",)
+        elif kind == 2:
+            if variant == "factory":
+                L.setIncidentReporterFactory(RaisingReporter)
+            elif variant == "rmdir":
+                shutil.rmtree(self.incdir)
+            else:
+                shutil.rmtree(self.incdir)
+                open(self.incdir, "w").close()
+            self.fault = (variant if variant in ("factory", "rmdir") else "notadir",)
 
     def timer(self):
         E.clock.advance(incident.IncidentReporter.TRAILING_DELAY + 1 if incident.IncidentReporter.TRAILING_DELAY else 6)
@@ -272,13 +324,17 @@ class LoggerRig(object):
         return out
 
     def tmp_count(self):
+        if not os.path.isdir(self.incdir):
+            return 0
         return len([f for f in os.listdir(self.incdir) if f.endswith(".tmp")])
 
     def files(self):
         """published incident files in order of publication -> list of [trigger view] + event views"""
         out = []
         for f in self.published:
-            evs = list(flogfile.get_events(os.path.join(self.incdir, f)))
+            evs = self.contents[f]
+            if isinstance(evs, Exception):
+                raise evs
             out.append([view(evs[0]["header"]["trigger"])] + [view(e["d"]) for e in evs[1:]])
         return out
 
@@ -350,6 +406,9 @@ def call_msg(rig, op):
             r = None
         elif kind == "timer":
             rig.timer()
+            r = None
+        elif kind == "fault":
+            rig.set_fault(op[1], op[2])
             r = None
         else:
             raise ValueError(op)
